@@ -88,6 +88,9 @@ impl HashCount {
   pub fn len(&self) -> usize {
     self.shards.iter().map(|s| s.lock().unwrap().len()).sum()
   }
+  pub fn dump(&self) -> Vec<u64> {
+    self.shards.iter().flat_map(|s| s.lock().unwrap().iter().cloned().collect::<Vec<_>>()).collect()
+  }
 }
 
 #[derive(Clone, Debug)]
